@@ -25,3 +25,37 @@ Definition legal (witver : Z) (proglen : nat) : bool :=
   (0 <=? witver) && (witver <=? 16) && (2 <=? proglen)%nat && (proglen <=? 40)%nat &&
   (negb (witver =? 0) || (proglen =? 20)%nat || (proglen =? 32)%nat).
 Definition const_for (witver : Z) : Z := if witver =? 0 then bech32_const else bech32m_const.
+
+(* ---- an independent segwit address reader for the Spec-side checks of the correspondence (lower-case addresses, as the
+   library emits them): hrp, the separator, data characters of the BIP's charset, checksum constant by witness version,
+   5-to-8 bit regrouping without padding, BIP141 program rules.  Uses only the constants above. ---- *)
+Fixpoint spec_sym_index (c : Z) (l : list Z) (i : Z) : option Z :=
+  match l with [] => None | x :: r => if x =? c then Some i else spec_sym_index c r (i + 1) end.
+Fixpoint spec_symbols (s : list Z) : option (list Z) :=
+  match s with
+  | [] => Some []
+  | c :: r => match spec_sym_index c charset 0, spec_symbols r with Some v, Some vs => Some (v :: vs) | _, _ => None end
+  end.
+Definition spec_regroup_5_8 (d : list Z) : option (list Z) :=
+  let step (st : Z * Z * list Z) (v : Z) :=
+    let '(acc, bits, out) := st in
+    let acc := acc * 32 + v in let bits := bits + 5 in
+    if 8 <=? bits then (acc mod 2 ^ (bits - 8), bits - 8, out ++ [acc / 2 ^ (bits - 8)]) else (acc, bits, out) in
+  let '(acc, bits, out) := fold_left step d (0, 0, []) in
+  if (bits <? 5) && (acc =? 0) then Some out else None.
+Fixpoint spec_list_eqb (a b : list Z) : bool :=
+  match a, b with [] , [] => true | x :: r, y :: q => (x =? y) && spec_list_eqb r q | _, _ => false end.
+Definition spec_decode (hrp s : list Z) : option (Z * list Z) :=
+  let n := List.length hrp in
+  if spec_list_eqb (firstn n s) hrp && spec_list_eqb (firstn 1 (skipn n s)) [49] then
+    match spec_symbols (skipn (S n) s) with
+    | Some (v :: rest) =>
+        if (6 <=? List.length rest)%nat && (spec_polymod (spec_hrp_expand hrp ++ v :: rest) =? const_for v) then
+          match spec_regroup_5_8 (firstn (List.length rest - 6) rest) with
+          | Some prog => if legal v (List.length prog) then Some (v, prog) else None
+          | None => None
+          end
+        else None
+    | _ => None
+    end
+  else None.
